@@ -322,6 +322,55 @@ func damages(r *simrt.Rand, wal []byte, tgs []tgInfo, tier string) []damage {
 			out = append(out, damage{kind: "insert", first: o, bytes: b, note: fmt.Sprintf("%d bytes", len(g))})
 		}
 	}
+	// boundary values in length fields: the length of every TGDATA record is
+	// overwritten, and a bare TGDATA header (message id 0 + length) is inserted at
+	// every record boundary and at the end of the file, with values around the
+	// limits a reader may compute with (zero, +-1, int32/int64 extremes, the file
+	// size and its safety multiple, values that overflow when an offset is added)
+	le := func(v int64) []byte {
+		b := make([]byte, 8)
+		for i := 0; i < 8; i++ {
+			b[i] = byte(uint64(v) >> (8 * uint(i)))
+		}
+		return b
+	}
+	const maxI = int64(^uint64(0) >> 1)
+	extremes := func(off int64) []int64 {
+		return []int64{0, 1, -1, 8, maxI, maxI - 1, maxI - off, maxI - off - 1, maxI - off - 8, maxI - off - 16, maxI - off - 17, maxI - off - 25,
+			-maxI - 1, 1<<31 - 1, 1 << 31, 1 << 32, n, n - off, n - off - 9, n - off + 1, 1000 * n, 1000*n - 1, 1 << 40, 1 << 62}
+	}
+	for _, rc := range parseWAL(wal) {
+		if rc.mid == 0 && rc.start+9 <= n {
+			for _, v := range extremes(rc.start + 9) {
+				b := append([]byte{}, wal...)
+				copy(b[rc.start+1:rc.start+9], le(v))
+				out = append(out, damage{kind: "length", first: rc.start + 1, bytes: b, note: fmt.Sprintf("tg length := %d", v)})
+			}
+		}
+	}
+	var bounds []int64
+	for _, rc := range parseWAL(wal) {
+		bounds = append(bounds, rc.start)
+	}
+	bounds = append(bounds, n)
+	for _, o := range bounds {
+		ex := extremes(o + 9)
+		picks := ex
+		if tier != "thorough" && len(bounds) > 4 {
+			picks = nil
+			for i := 0; i < 6; i++ {
+				picks = append(picks, ex[r.Intn(len(ex))])
+			}
+		}
+		for _, v := range picks {
+			g := append([]byte{0}, le(v)...)
+			for i, nx := 0, r.Intn(12); i < nx; i++ {
+				g = append(g, byte(r.Intn(256)))
+			}
+			b := append(append(append([]byte{}, wal[:o]...), g...), wal[o:]...)
+			out = append(out, damage{kind: "fake-header", first: o, bytes: b, note: fmt.Sprintf("tgdata header with length %d", v)})
+		}
+	}
 	// a TG record duplicated right after itself; two adjacent TGs swapped
 	for i, t := range tgs {
 		end := t.commitEnd
